@@ -1388,6 +1388,174 @@ func isEmptyCodeErr(err error) bool {
 	return err != nil && strings.Contains(err.Error(), "can't load code hash") && strings.Contains(err.Error(), hex.EncodeToString(keccakEmpty[:]))
 }
 
+// ---------------------------------------------------------------------------------------------
+// write failures at the real LevelDB level: the physical store goes away (node shutdown racing with
+// the commit, I/O failure) while a multi-batch commit is in flight, so that the real
+// ldbBatch.Write / prefixBatch.Write / Put return the LevelDB error ("leveldb: closed").
+// Contract: EITHER NodeDatabase.Commit returns an error, OR the root it reported success for is
+// completely readable after reopening the store; older durable roots stay readable either way.
+
+type faultDB struct {
+	xdb.Database
+	closeAfter int // close the physical store once this many batch writes have been issued (0: before the first)
+	writes     int
+	armed      bool
+	closeFn    func()
+	closed     bool
+}
+type faultBatch struct {
+	xdb.Batch
+	db *faultDB
+}
+
+func (d *faultDB) shut() {
+	if !d.closed {
+		d.closed = true
+		d.closeFn()
+	}
+}
+func (d *faultDB) NewBatch() xdb.Batch { return &faultBatch{d.Database.NewBatch(), d} }
+func (b *faultBatch) Write() error {
+	if b.db.armed && b.db.writes == b.db.closeAfter {
+		b.db.shut()
+	}
+	err := b.Batch.Write() // the real batch implementation on the (possibly closed) store
+	b.db.writes++
+	if b.db.armed && b.db.writes == b.db.closeAfter {
+		b.db.shut()
+	}
+	return err
+}
+
+type storeKind struct {
+	path   string // the write path exercised
+	open   func(name string) (xdb.Database, error)
+	putKey string
+}
+
+func (rn *runner) leveldbFault(seed uint64, idx int, kind storeKind, closeAfter int) {
+	r := hx.NewRng(seed)
+	u := genUniverse(r)
+	codes := [][]byte{r.Bytes(1 + r.Intn(300)), r.Bytes(1 + r.Intn(300))}
+	name := fmt.Sprintf("c03-fault-%d-%d", idx, seed%100000)
+	input := func(extra map[string]interface{}) map[string]interface{} {
+		m := map[string]interface{}{"leveldb_fault_seed": seed, "store": name, "write_path": kind.path, "store_closed_after_physical_batch": closeAfter}
+		for k, v := range extra {
+			m[k] = v
+		}
+		return m
+	}
+	phys, err := kind.open(name)
+	if err != nil {
+		rn.res.Note("leveldb fault scenario skipped: " + err.Error())
+		return
+	}
+	fdb := &faultDB{Database: phys, closeAfter: closeAfter, closeFn: phys.Close}
+	database := account.NewDatabase(fdb)
+	var roots []*rootInfo
+	parent := common.Hash{}
+	var reported []string
+	for b := 0; b < 2; b++ {
+		adb, err := account.NewAccountDB(parent, database)
+		if err != nil {
+			rn.res.Violate("C03/leveldb-fault:open-parent", err.Error(), input(map[string]interface{}{"block": b}))
+			fdb.shut()
+			return
+		}
+		for _, o := range genBlock(r, u, codes, b == 1) {
+			apply(adb, u, o)
+		}
+		root, err := adb.Commit(true)
+		if err != nil {
+			rn.res.Violate("C03/leveldb-fault:state-commit-error", err.Error(), input(map[string]interface{}{"block": b}))
+			fdb.shut()
+			return
+		}
+		exp, prob, _ := readState(database, root, u)
+		if prob != "" {
+			rn.res.Violate("C03/leveldb-fault:unreadable-before-commit", prob, input(map[string]interface{}{"block": b}))
+			fdb.shut()
+			return
+		}
+		if b == 1 {
+			fdb.armed, fdb.writes = true, 0
+		}
+		var cerr error
+		func() {
+			defer func() {
+				if p := recover(); p != nil {
+					cerr = fmt.Errorf("panic: %v", p)
+				}
+			}()
+			cerr = database.TrieDB().Commit(root, false)
+		}()
+		reported = append(reported, fmt.Sprint(cerr))
+		roots = append(roots, &rootInfo{root: root, exp: exp, durable: cerr == nil, block: b})
+		if b == 0 && cerr != nil {
+			rn.res.Violate("C03/leveldb-fault:disk-commit-error", cerr.Error(), input(map[string]interface{}{"block": b}))
+			fdb.shut()
+			return
+		}
+		parent = root
+	}
+	// a direct Put on the closed store: an error, or the value is there after the reopen
+	putErr := error(nil)
+	pk, pv := []byte(kind.putKey+"-probe"), []byte("value written after the store went away")
+	func() {
+		defer func() {
+			if p := recover(); p != nil {
+				putErr = fmt.Errorf("panic: %v", p)
+			}
+		}()
+		fdb.shut()
+		putErr = phys.Put(pk, pv)
+	}()
+	again, err := kind.open(name)
+	if err != nil {
+		rn.res.Violate("C03/leveldb-fault:reopen", err.Error(), input(nil))
+		return
+	}
+	defer again.Close()
+	if putErr == nil {
+		if got, gerr := again.Get(pk); gerr != nil || !bytes.Equal(got, pv) {
+			rn.res.Violate("C03/durable:success-reported-but-not-on-disk:"+kind.putKey, "Put on a closed store returned nil but the value is not there after the reopen",
+				input(map[string]interface{}{"get_error": fmt.Sprint(gerr)}))
+		}
+	}
+	cold := account.NewDatabase(again)
+	class := "leveldb-fault:" + kind.path + ":commit-reported-error"
+	for _, x := range roots {
+		_, present := again.Get(x.root[:])
+		topPresent := present == nil || x.root == emptyRoot
+		if !x.durable && !topPresent {
+			continue // Commit said it failed and the root is not there: nothing was promised
+		}
+		got, prob, _ := readState(cold, x.root, u)
+		what := prob
+		if what == "" {
+			what = diffMaps(x.exp, got)
+		}
+		if what == "" {
+			continue
+		}
+		in := input(map[string]interface{}{"root": x.root.Hex(), "root_of_block": x.block, "commit_results": reported, "physical_batch_writes_issued": fdb.writes})
+		switch {
+		case x.durable && x.block == 1:
+			rn.res.Violate("C03/durable:success-reported-but-not-on-disk:"+kind.path,
+				"NodeDatabase.Commit returned nil although the physical store failed during the commit; after reopening the store the root is not readable: "+what, in)
+		case x.durable:
+			rn.res.Violate("C03/leveldb-fault:old-root-unreadable-after-reopen", what, in)
+		default:
+			rn.res.Violate("C03/leveldb-fault:top-node-present-but-not-resolvable", what, in)
+		}
+	}
+	if roots[len(roots)-1].durable {
+		class = "leveldb-fault:" + kind.path + ":commit-reported-success"
+	}
+	rn.points++
+	rn.res.Count(class, fmt.Sprintf("fault/%s/%d/%d", kind.path, seed, closeAfter), true)
+}
+
 func opStrings(ops []op, max int) []string {
 	var out []string
 	for i, o := range ops {
@@ -1524,6 +1692,21 @@ func main() {
 	}
 	for i := 0; i < nl; i++ {
 		rn.leveldbHistory(rng.U64(), i)
+	}
+	kinds := []storeKind{
+		{"ldbBatch.Write", func(name string) (xdb.Database, error) { return xdb.NewLDBDatabase(name, 8, 8) }, "LDBDatabase.Put"},
+		{"prefixBatch.Write", func(name string) (xdb.Database, error) { return xdb.NewDatabase("c03-" + name) }, "PrefixedDatabase.Put"},
+	}
+	nf := 3
+	if a.Tier == "thorough" {
+		nf = 8
+	}
+	fi := 0
+	for _, kd := range kinds {
+		for ca := 0; ca < nf; ca++ {
+			rn.leveldbFault(rng.U64(), fi, kd, ca%4)
+			fi++
+		}
 	}
 	res.Histogram["histories"] = h
 	res.Histogram["disk-commits"] = rn.commits
